@@ -355,6 +355,9 @@ def torch_pipeline(ctx):
             none_branch = any(lbl == "T" and _is_comp_test(t) for lbl, t in tests)
             if none_branch:
                 ok = cc.is_call(leaf, ".unsqueeze") and len(leaf.args) == 3 and leaf.args[2] == S.ONE
+                # signal[:, None] is the same column view of a one-dimensional signal
+                if not ok and cc.is_call(leaf, "getitem") and len(leaf.args) == 3 and leaf.args[2] == S.call("tuple", S.call("slice", S.NONE, S.NONE, S.NONE), S.NONE):
+                    ok = True
                 ctx.check(ok, R, g, node, "without a computer the samples are stored as a column (unsqueeze(1))",
                           "the no-computer fallback is not signal.unsqueeze(1): %s" % _short(leaf))
                 p = leaf.args[1] if ok else None
@@ -490,6 +493,10 @@ def torch_pipeline(ctx):
     tn = [t.id for t in ast.walk(loop.target) if isinstance(t, ast.Name)]
     ctx.need(len(tn) == 2, R, "writer loop target is not (utt_ids, feats)")
     ok = cc.is_call(val, "getitem") and val.args[1] == S.sym(tn[1]) and val.args[2] == S.ZERO
+    if not ok and cc.is_call(val, ".squeeze") and len(val.args) == 3 and val.args[1] == S.sym(tn[1]) and val.args[2] == S.ZERO:
+        # the loader yields batches of one (no batch_size / batch_sampler argument): dropping the batch axis is taking element 0
+        mk = [c for c in astq.func_calls(tool) if (prog.qualify(tool.module, c.func, tool) or "").endswith("DataLoader")]
+        ok = len(mk) == 1 and not any(k.arg in ("batch_size", "batch_sampler", "collate_fn") for k in mk[0].keywords) and len(mk[0].args) <= 1
     ctx.check(ok, R, tool, sst, "the tensor saved is the (single) batch element yielded by the dataset",
               "the tensor saved is %s, not %s[0]" % (_short(val), tn[1]))
     idexpr = S.call("getitem", S.sym(tn[0]), S.ZERO)
@@ -818,8 +825,31 @@ def seed(ctx):
         ctx.check(not bad, R, g, c, "the per-item seed uses no process- or time-dependent source",
                   "the per-item seed depends on %s, which differs between interpreter processes / runs, so a fixed "
                   "--seed does not reproduce the output" % ", ".join(bad))
-        ctx.check(any(astq.is_self_attr(x, g.params[0], "seed") for x in ast.walk(c)), R, g, c,
-                  "the per-item seed includes the base seed", "the per-item seed ignores self.seed")
+        has_base = any(astq.is_self_attr(x, g.params[0], "seed") for x in ast.walk(c))
+        if not has_base:
+            # the base seed may be folded into a per-utterance table by the tool: the table's argument at the construction site mentions the
+            # value passed as `seed`
+            tool_ = prog.func("command_line.signals_to_torch_feat_dir")
+            init_ = prog.own_method(ds, "__init__")
+            sites_ = [c_ for c_ in astq.func_calls(tool_) if prog.resolve(tool_.module, c_.func, tool_) is ds]
+            if len(sites_) == 1 and init_ is not None:
+                actual_ = dict(zip(init_.params[1:], sites_[0].args))
+                actual_.update({k.arg: k.value for k in sites_[0].keywords if k.arg})
+                base_ = actual_.get("seed")
+                attr_par = {}
+                for n_ in init_.body_nodes():
+                    if isinstance(n_, ast.Assign) and len(n_.targets) == 1 and astq.is_self_attr(n_.targets[0], init_.params[0]):
+                        attr_par[n_.targets[0].attr] = {x.id for x in ast.walk(n_.value) if isinstance(x, ast.Name) and x.id in init_.all_param_names()}
+                for x in ast.walk(c):
+                    if isinstance(x, ast.Attribute) and astq.is_self_attr(x, g.params[0]) and isinstance(base_, ast.Name):
+                        for p_ in attr_par.get(x.attr, ()):
+                            a_ = actual_.get(p_)
+                            vals_ = [a_] if a_ is not None else []
+                            if isinstance(a_, ast.Name):
+                                vals_ += [n_.value for n_ in tool_.body_nodes() if isinstance(n_, ast.Assign) and any(astq.is_name(t_, a_.id) for t_ in n_.targets)]
+                            if any(isinstance(y, ast.Name) and y.id == base_.id for v_ in vals_ for y in ast.walk(v_)) and p_ != "seed":
+                                has_base = True
+        ctx.check(has_base, R, g, c, "the per-item seed includes the base seed", "the per-item seed ignores self.seed")
     tool = prog.func("command_line.signals_to_torch_feat_dir")
     cc.base_seed(ctx, R, tool, ds)
     cc.seed_inputs_deterministic(ctx, R, tool, ds)
